@@ -13,7 +13,7 @@ LEVEL_TEXT = ('Lean 4 theorems over tables regenerated from radiometry.py (decim
               'form a cocycle with identity and round trips (64 triples, any field of characteristic 0); the 27 flux triples as '
               'identities of rational functions in flux, wave, H, C; Spectrum.to preserves the trapezoid integral of a density and '
               'the values of a unitless spectrum, composes and round-trips; exitance = pi x radiance and Planck unit-independence between Gen.planckExitance and Gen.planckRadiance, each translated from its own source function, '
-              'with exp uninterpreted; flux-unit composition and the multi-argument to() loop (model applyTo) at spectrum level. Partial: Wien peak and Stefan-Boltzmann total are checked numerically only.')
+              'with exp uninterpreted; flux-unit composition and the multi-argument to() loop (model applyTo) at spectrum level; Spectrum.to\'s per-sample steps (which of wave/value is multiplied or divided by which factor, the metre detour of flux conversion) are regenerated as Gen.toStep* and the model is defined through them (bridge lemmas toWave_eq/toFlux_eq); a converted grid stays valid (toWave_valid). Partial: Wien peak and Stefan-Boltzmann total are checked numerically only.')
 LEVEL_NOTE = ('partial: the clauses "peaks where Wien\'s law says" and "integrates to the Stefan-Boltzmann total" have no theorem '
               '(they need d/dλ of Planck\'s law and ∫x³/(eˣ−1)=π⁴/15); they are evaluated numerically on the implementation in every '
               'run. Trusted: tools/specs/c14.py (if-chain/literal reader), np.exp, np.trapz as Σ Δx·(y₀+y₁)/2.')
